@@ -87,6 +87,23 @@ static _Bool qv_is_freed(const void *p) {
 #define QV_IS_FREED(p) qv_is_freed(p)
 #endif
 
+/* QV_ALLOC: allocation of HARNESS state that never fails and yields a concrete object address (the
+ * library malloc model may return NULL, which makes every later access through the pointer a case
+ * split).  The object is a normal heap object for free() and is tracked by the leak check exactly as
+ * the malloc model tracks its objects. */
+#if defined(QV_NATIVE)
+#define QV_ALLOC(n) calloc(1, (n))
+#else
+extern const void *__CPROVER_memory_leak;
+static inline void *qv_alloc(size_t n) {
+    void *p = __CPROVER_allocate(n, 1);
+    _Bool rec = nondet_bool();
+    __CPROVER_memory_leak = rec ? p : __CPROVER_memory_leak;
+    return p;
+}
+#define QV_ALLOC(n) qv_alloc(n)
+#endif
+
 /* size caps: proof mode uses the large cap, witness/native the small one */
 #if defined(QV_WITNESS) || defined(QV_NATIVE)
 #ifndef QV_WCAP
